@@ -13,7 +13,37 @@ var (
 	psStatus = paramSpec{kind: kEnum, leanType: "Status", strFn: "statusName"}
 	psPType  = paramSpec{kind: kEnum, leanType: "PType", strFn: "ptypeName"}
 	psOpStat = paramSpec{kind: kEnum, leanType: "OpStatus", strFn: "opStatusName"}
+	psTime   = paramSpec{kind: kTime}
 )
+
+// emitListing pins a function that is outside the byte-builder subset by its normalised statement
+// listing (skel.go): `def <lean> : List String`.
+func emitListing(b *strings.Builder, notes *[]string, p *pkgSrc, goName, lean string) {
+	fd := p.funcs[goName]
+	if fd == nil || fd.Body == nil {
+		*notes = append(*notes, goName+": function not found in source")
+		fmt.Fprintf(b, "opaque %s : List String\n\n", lean)
+		return
+	}
+	fmt.Fprintf(b, "/-- statement listing of `%s` -/\ndef %s : List String :=\n  %s\n\n", goName, lean, leanStrList(listing(p, fd)))
+}
+
+// emitConstBytes emits a package-level string/[]byte constant as a Lean `Bytes` literal.
+func emitConstBytes(b *strings.Builder, notes *[]string, tr *bytesTranslator, goName, lean string) {
+	v, ok := tr.p.vars[goName]
+	if !ok {
+		*notes = append(*notes, goName+": constant not found in source")
+		fmt.Fprintf(b, "opaque %s : Bytes\n\n", lean)
+		return
+	}
+	x, err := tr.expr(v, env{})
+	if err != nil {
+		*notes = append(*notes, goName+": "+err.Error())
+		fmt.Fprintf(b, "opaque %s : Bytes\n\n", lean)
+		return
+	}
+	fmt.Fprintf(b, "/-- `%s` -/\ndef %s : Bytes := %s\n\n", goName, lean, x)
+}
 
 func emitEnumTable(name, leanType string, tbl map[int]string, ctors map[int]string) (string, []string) {
 	var notes []string
@@ -33,7 +63,7 @@ func emitEnumTable(name, leanType string, tbl map[int]string, ctors map[int]stri
 func genKeys(repo string) (string, []string, error) {
 	var notes []string
 	var b strings.Builder
-	b.WriteString("import DymVerif.Model.Keys\nnamespace DymVerif.Gen.Keys\nopen DymVerif DymVerif.Keys\n\n")
+	b.WriteString("import DymVerif.Model.Keys2\nnamespace DymVerif.Gen.Keys\nopen DymVerif DymVerif.Keys\n\n")
 
 	// ---- x/common/types : rollapp packet keys ------------------------------------------
 	common, err := loadFiles(
@@ -129,6 +159,11 @@ func genKeys(repo string) (string, []string, error) {
 		{goName: "SequencersByRollappKey", leanName: "sequencersByRollappKey", params: []paramSpec{psBytes}},
 		{goName: "SequencersByRollappByStatusKey", leanName: "sequencersByRollappByStatusKey", params: []paramSpec{psBytes, psOpStat}},
 		{goName: "SequencerByRollappByStatusKey", leanName: "sequencerByRollappByStatusKey", params: []paramSpec{psBytes, psBytes, psOpStat}},
+		{goName: "SequencerKey", leanName: "sequencerKey", params: []paramSpec{psBytes}},
+		{goName: "ProposerByRollappKey", leanName: "proposerByRollappKey", params: []paramSpec{psBytes}},
+		{goName: "SuccessorByRollappKey", leanName: "successorByRollappKey", params: []paramSpec{psBytes}},
+		{goName: "NoticeQueueByTimeKey", leanName: "noticeQueueByTimeKey", params: []paramSpec{psTime}},
+		{goName: "NoticeQueueBySeqTimeKey", leanName: "noticeQueueBySeqTimeKey", params: []paramSpec{psBytes, psTime}},
 	}
 	for _, sp := range sorder {
 		trs.specs[sp.goName] = sp
@@ -137,6 +172,20 @@ func genKeys(repo string) (string, []string, error) {
 		b.WriteString(trs.fn(sp) + "\n")
 	}
 	notes = append(notes, trs.notes...)
+	emitConstBytes(&b, &notes, trs, "NoticePeriodQueueKey", "noticePeriodQueueKey")
+
+	// utils.EncodeTimeToKey (make + copy) and the notice-queue iterator bounds: pinned listings
+	ut, err := loadFiles(filepath.Join(repo, "utils/keys.go"))
+	if err != nil {
+		return "", nil, err
+	}
+	emitListing(&b, &notes, ut, "EncodeTimeToKey", "encodeTimeToKeyListing")
+	sk, err := loadFiles(filepath.Join(repo, "x/sequencer/keeper/get_and_set.go"), filepath.Join(repo, "x/sequencer/keeper/rotation.go"))
+	if err != nil {
+		return "", nil, err
+	}
+	emitListing(&b, &notes, sk, "Keeper.NoticeQueue", "noticeQueueListing")
+	emitListing(&b, &notes, sk, "Keeper.NoticeElapsedProposers", "noticeElapsedProposersListing")
 
 	b.WriteString("end DymVerif.Gen.Keys\n")
 	return b.String(), notes, nil
